@@ -40,6 +40,26 @@ CHECKS = {
    text="All event sequences of the bound over 4 inserts, Flush, Restart and ApplySchema with 15 layouts (rotations, every deletion, every insertion position of a new field, delete+insert, two WHERE variants; a wide PERCENTILE field included), at most 2 alters per sequence; after every event on every distinct state SELECT *, each single field and a reversed pair must equal a model that tracks per field the points processed while the field was continuously present.",
    note="Re-added fields are unconstrained (the property does not speak to them). 'Processed before/after the alter' is exact because the driver quiesces before each alter and waits for the row store to take the update.",
    ref="§3 C15"),
+ "C06": dict(cat="exploration", tech="exhaustive small-scope enumeration of datasets × storage splits × clock positions × groupings × period multiples × field lists on real DBs with an anchoring-agnostic interval oracle",
+   text="Every dataset of the bound (all sets of up to 2/3 cells over 6 keys × 5 periods plus richer sets) × {memory, disk, split} × 4 clock positions × 5 groupings × 6 period multiples (incl. non-divisors and larger than the window) × 5 field lists is queried on a real DB; per key the returned intervals must be disjoint, every point inside the window covered exactly once, every row equal to the aggregate recomputed from the raw points of its interval, no row without points.",
+   note="Bucket anchoring, straddling periods and the planner's clamping of over-long periods are left open, as the property leaves them open; P is read from the plan. Values are distinct powers of two so sums identify the contributing points.",
+   ref="§3 C06"),
+ "C07": dict(cat="exploration", tech="exhaustive enumeration of (asOf, until) pairs × groupings × datasets on real DBs with the interval oracle",
+   text="Every (asOf, until) pair from a grid of absent / every boundary and mid-period instant around the data / relative offsets (421 pairs, empty and inverted ranges included) × 4 groupings × datasets × storage splits × 2 clock positions: every native period wholly inside the range is covered exactly once with recomputed values, nothing ends at or before asOf or begins at or after until, empty ranges yield an error or no rows, the default window brackets (now - retention, now].",
+   note="Periods straddling a range edge are unconstrained. A range whose asOf lies before the table window may be refused.",
+   ref="§3 C07"),
+ "C08": dict(cat="exploration", tech="exhaustive enumeration of a predicate grammar against an independent three-valued evaluator, plus HAVING / IN / FROM-subquery differentials",
+   text="820 WHERE predicates (10 atoms, their negations, all AND/OR pairs) × 3 query shapes × 6 datasets judged by a harness-written evaluator through the interval oracle; 20 HAVING predicates × 4 select lists × 3 shapes against the HAVING-free query; 12 IN-subquery pairs against literal lists; 20 FROM-subquery pairs against re-aggregation of the materialised inner rows.",
+   note="Comparisons against an absent dimension, and HAVING rows with an unset operand, are unconstrained (three-valued). Quick runs every third WHERE predicate.",
+   ref="§3 C08"),
+ "C10": dict(cat="exploration", tech="exhaustive differential: config × dataset × query on a real in-process cluster vs a standalone DB",
+   text="Every configuration (P, leaders, followers per partition) × dataset × 100 queries (20 per table, 5 tables covering every partitionBy variant) is executed on a real in-process cluster wired through the public seams and on a standalone DB fed the same points; rows, order under ORDER BY, per-partition placement sums, redundant followers and partition statistics are compared.",
+   note="Clocks are advanced together. Leader queries are retried while a partition has no live handler (availability is C13's subject). Known finding D13 (OFFSET applied twice in pushdown) is matched only when the result equals the prediction computed from the followers' own answers.",
+   ref="§3 C10"),
+ "C12": dict(cat="model_checking", tech="deviation-bounded exploration of fault sequences on a real in-process cluster with harness-owned links and exact quiescence",
+   text="The base schedule (3/4 inserts through the leader(s), eager delivery) plus every placement of up to 2 fault events (flush one table, flush all, clean stop/start, crash with the directory image of that instant, cut, reconnect, gate, ungate, leader restart, snapshot, restore) at every position, on two tables with different partition keys so per-table offsets diverge; after healing, every table's rows summed over partitions must equal a standalone DB, redundant followers must be identical and leader queries must equal standalone.",
+   note="Layer 1 of DESIGN §C12 only: the TLA+ offset model with trace replay and the real-server cross-check are not built yet. The reconnect policy of server.followSource is re-implemented in the driver.",
+   ref="§3 C12"),
 }
 
 NOT_YET = {}
